@@ -162,6 +162,68 @@ func elemHeapName(t types.Type) string {
 // heapTyping returns the axiom that every cell of heap array h (a whole-array
 // symbol: an initial version or a havocked one) holds a value of its Go type.
 func (e *Enc) heapTyping(name string, h Term) string {
+	return e.heapTypingAlloc(name, h, "")
+}
+
+// refsBelow: every reference held in value v of type t is below alloc.
+func (e *Enc) refsBelow(t types.Type, v Term, alloc string) Term {
+	switch u := t.Underlying().(type) {
+	case *types.Pointer, *types.Map, *types.Chan:
+		return Term{app("<", v.S, alloc), sBool}
+	case *types.Slice:
+		return Term{app("<", app("Slice_arr", v.S), alloc), sBool}
+	case *types.Struct:
+		si := e.reg.structOf(t)
+		var fs []Term
+		for i, f := range si.fields {
+			fs = append(fs, e.refsBelow(f.typ, si.get(v, i), alloc))
+		}
+		_ = u
+		return tAnd(fs...)
+	}
+	return tTrue
+}
+
+// heapTypingAlloc: typing axiom of a whole heap array for allocated objects; with
+// alloc != "" also the heap-model axiom that every reference stored in an allocated
+// object is below that allocation counter. (Cells of not yet allocated objects are
+// left unconstrained: they stand for the contents the object will be created with.)
+func (e *Enc) heapTypingAlloc(name string, h Term, alloc string) string {
+	heapTypeMu.Lock()
+	t := heapTypes[name]
+	heapTypeMu.Unlock()
+	if t == nil {
+		return ""
+	}
+	guard := func(f Term) Term {
+		if alloc == "" {
+			return f
+		}
+		return tImp(Term{"(and (<= 0 r!) (< r! " + alloc + "))", sBool}, f)
+	}
+	if strings.HasPrefix(name, "E.") {
+		cell := Term{app("select", app("select", h.S, "r!"), "i!"), e.reg.sortOf(t)}
+		f := e.reg.rangeFact(t, cell)
+		if alloc != "" {
+			f = tAnd(f, e.refsBelow(t, cell, alloc))
+		}
+		if f.S == "true" {
+			return ""
+		}
+		return fmt.Sprintf("(assert (forall ((r! Int) (i! Int)) (! %s :pattern (%s))))", guard(f).S, cell.S)
+	}
+	cell := Term{app("select", h.S, "r!"), e.reg.sortOf(t)}
+	f := e.reg.rangeFact(t, cell)
+	if alloc != "" {
+		f = tAnd(f, e.refsBelow(t, cell, alloc))
+	}
+	if f.S == "true" {
+		return ""
+	}
+	return fmt.Sprintf("(assert (forall ((r! Int)) (! %s :pattern (%s))))", guard(f).S, cell.S)
+}
+
+func (e *Enc) heapTypingOld(name string, h Term) string {
 	heapTypeMu.Lock()
 	t := heapTypes[name]
 	heapTypeMu.Unlock()
@@ -290,6 +352,7 @@ type Enc struct {
 	splits    []SplitSpec
 	scratchLocals map[*ssa.Alloc]Term
 	specVals      map[string]CVal
+	retGuards     []Term
 }
 
 type modRef struct {
